@@ -159,3 +159,23 @@ Definition link_spec_ok (ds : list decl) (ls : list link) (obs : outcome * list 
       | None => match fst obs with OOk => log_ok us sk sls (snd obs) | _ => false end
       end
   end.
+
+(* ---- histories that go on after a rejected link: every link that would close a cycle with the links accepted so far is
+   rejected (and only those); what is finally constructed obeys the accepted links. *)
+Fixpoint cont_walk (us : list (str * option str)) (acc todo : list slink) (k : nat) : list slink * list nat :=
+  match todo with
+  | [] => (acc, [])
+  | l :: t => if has_cycle (dep_edges us (acc ++ [l]))
+              then let (a, r) := cont_walk us acc t (S k) in (a, k :: r)
+              else cont_walk us (acc ++ [l]) t (S k)
+  end.
+
+Definition link_spec_cont_ok (ds : list decl) (ls : list link) (rej : list nat) (obs : outcome * list event) : bool :=
+  let us := all_units ds in
+  let sk := sinks_of ds in
+  match opt_all (map (spec_link us sk) ls) with
+  | None => false
+  | Some sls =>
+      let (acc, r) := cont_walk us [] sls 0 in
+      list_eqb Nat.eqb r rej && match fst obs with OOk => log_ok us sk acc (snd obs) | _ => false end
+  end.
